@@ -267,7 +267,9 @@ Definition decode_kcase (l : list N) : option kcase :=
         | [] => pfail
         | (_, loc) :: _ =>
             let* steps := plist (p_kstep keys) in
-            pret (mkKCase k (map snd keys) loc steps)
+            (* k >= 100: routing-table update mode Manual (the harness then records no update
+               operations), replication factor k - 100 *)
+            pret (mkKCase (Nat.modulo k 100) (map snd keys) loc steps)
         end) l.
 
 Definition enc_peers (pkeys : list (list N)) (ps : list key) : list N :=
@@ -503,8 +505,32 @@ Fixpoint p_replies (keys : list key) (ops : list kgop) : parser (list (key * lis
   | _ :: r => p_replies keys r
   end.
 
+(* ground truth along a step: the Connected claims of its operations (connection established;
+   add / update while a PeerContext exists), minus the peers disconnect_peer ran for afterwards.
+   ps = the PeerContext set, followed through the operations as Model.kstep does *)
+Fixpoint kclaims (local : key) (ps : list key) (g claims : list key) (ops : list kgop)
+  : list key * list key * list key :=
+  match ops with
+  | [] => (ps, g, claims)
+  | KFind _ _ :: r => kclaims local ps g claims r
+  | KOp o :: r =>
+      match o with
+      | KAddKnown p a =>
+          kclaims local ps g (if a && in_peers ps p then p :: claims else claims) r
+      | KEstablished p _ pe => kclaims local (if pe then add_peer ps p else ps) g (p :: claims) r
+      | KDisconnect p => kclaims local (del_peer ps p) (del_peer g p) (del_peer claims p) r
+      | KTouch p => kclaims local (add_peer ps p) g claims r
+      | KUpdate l =>
+          kclaims local ps g
+                  (map fst (filter (fun pa : key * bool =>
+                                      snd pa && negb (key_eqb (fst pa) local) && in_peers ps (fst pa)) l)
+                   ++ claims) r
+      | KDialFailure _ _ | KEntry _ => kclaims local ps g claims r
+      end
+  end.
+
 Fixpoint ksteps_ok (lenient : bool) (keys : list key) (local : key) (k : nat) (t : table)
-         (steps : list (list kgop)) : parser bool :=
+         (ps g : list key) (steps : list (list kgop)) : parser bool :=
   match steps with
   | [] =>
       let* d := p_changed keys in
@@ -518,14 +544,19 @@ Fixpoint ksteps_ok (lenient : bool) (keys : list key) (local : key) (k : nat) (t
       let touched := flat_map kgop_keys ops in
       let disc := flat_map kgop_disc ops in
       let pure := negb (existsb kgop_writes ops) in
+      let t' := apply_changes t ch in
+      let '(ps', g1, claims) := kclaims local ps g [] ops in
+      let g' := fold_left (fun acc p => if stored_in local t' p then add_peer acc p else acc) claims g1 in
       if forallb (fun ib : nat * list node =>
                     (fst ib <? length t)%nat && binv_b local (fst ib) (snd ib) &&
                     kept_multi touched (nth (fst ib) t []) (snd ib) &&
                     conn_ok disc (nth (fst ib) t []) (snd ib)) ch &&
          (* a reply is judged against the table it was computed from *)
          (match reps with [] => true | _ => pure && match ch with [] => true | _ => false end end) &&
-         forallb (fun tr : key * list key => reply_ok lenient local t (fst tr) k (snd tr)) reps
-      then ksteps_ok lenient keys local k (apply_changes t ch) r
+         forallb (fun tr : key * list key => reply_ok lenient local t (fst tr) k (snd tr)) reps &&
+         (* ground truth: every connected peer is still stored after the step *)
+         forallb (stored_in local t') g'
+      then ksteps_ok lenient keys local k t' ps' g' r
       else pret false
   end.
 
@@ -534,7 +565,7 @@ Definition prop_ok_gen (lenient : bool) (case trace : list N) : bool :=
   | 0 :: _ =>
       match decode_kcase case, trace with
       | Some c, 1 :: body =>
-          match pall (ksteps_ok lenient (kc_keys c) (kc_local c) (kc_k c) (empty_table KBITS)
+          match pall (ksteps_ok lenient (kc_keys c) (kc_local c) (kc_k c) (empty_table KBITS) [] []
                                 (kc_steps c)) body with
           | Some b => b
           | None => false
